@@ -29,7 +29,8 @@ REGISTRATION = {
             "(filterGPUsWithoutLoadingModels, updateFreeSpace, full/partial pick, numParallel forcing: load on which "
             "GPUs with which adjusted free figures | evict | delay), with theorems that discharge the correspondence "
             "hypothesis of the composition on that model (load_sound, load_alloc_within_reported) and lift it to every "
-            "reachable state (history_within_total: after any history of requests, load completions and unloads the sizes "
+            "reachable state; the CPU branch (cpuDecision: next to loaded models only if TotalSize <= free system memory) likewise "
+            "(TestVerifC16Cpu); (history_within_total: after any history of requests, load completions and unloads the sizes "
             "planned on a GPU for all loaded models sum to at most its total memory); every clause "
             "is also evaluated on the real results (estimator alone, and estimator on the scheduler-adjusted list).",
     "design_ref": "DESIGN.md §5 C16",
@@ -94,6 +95,7 @@ THEOREMS = [
     # the bound the code really enforces (reservation of the larger graph); no empty list reaches the estimator
     "OllamaVerif.C16.alloc_with_reserve_partial",
     "OllamaVerif.C16.load_list_nonempty",
+    "OllamaVerif.C16.cpu_load_within_system_memory",
     "OllamaVerif.C16.projReq_panics_iff",
     "OllamaVerif.C16.visionGraphSize_no_blocks",
     # Tie 1: the estimator variant found in the tree (compile only while fix cdbdf6013 of finding W1 is in the tree)
@@ -141,6 +143,8 @@ REQUIRED_BRANCHES = {
               "graph_wrap_likely"],
     "vision": ["vision_arch_clip", "vision_arch_mllama", "vision_arch_gemma3", "vision_arch_mistral3", "vision_arch_llama",
                "vision_proj_panic_patch0", "vision_patch0", "vision_with_blocks", "vision_class_embd"],
+    "cpu": ["cpu_decision_load", "cpu_decision_evict", "cpu_load_next_to_loaded", "cpu_runners_0", "cpu_runners_2",
+            "cpu_p_1", "cpu_p_4"],
     "load": ["load_decision_full", "load_decision_partial", "load_decision_evict", "load_decision_delay",
              "load_on_lowered_free", "load_multi_gpu", "load_with_loading_runner", "load_runners_0", "load_runners_2",
              "load_p_1", "load_p_4", "load_forced_parallel_1"],
@@ -187,10 +191,11 @@ def run(ctx):
     ctx.lean_check(MODULES, THEOREMS)
     if ctx.replay:
         env["VERIF_REPLAY"] = ctx.replay_line_file()
-    sched_only = pick_only = load_only = graph_only = vision_only = False
+    sched_only = pick_only = load_only = graph_only = vision_only = cpu_only = False
     if ctx.replay:
         raw = open(env["VERIF_REPLAY"]).read().replace(" ", "")
-        load_only = raw.startswith('{"kind":"load"')
+        cpu_only = raw.startswith('{"kind":"cpu"')
+        load_only = raw.startswith('{"kind":"load"') or cpu_only      # (skips the other drivers below)
         graph_only = raw.startswith('{"kind":"graph"')
         vision_only = raw.startswith('{"kind":"vision"')
         graph_only = graph_only or vision_only      # (skips the estimator / scheduler drivers below)
@@ -262,7 +267,18 @@ def run(ctx):
         if not ctx.replay:
             coverage_gate(ctx, "pick", st)
     # the scheduler's load path: the real Scheduler.processPending (GPU branch) on histories of requests
-    if (not ctx.replay or load_only) and not graph_only:
+    if (not ctx.replay and not graph_only and only in ("", "load")) or cpu_only:
+        env5 = dict(env)
+        env5["VERIF_N"] = ctx.scale(600, 12000)
+        rc, out, outdir = ctx.go_test("./server/", OVERLAY_SCHED, "^TestVerifC16Cpu$", env=env5, timeout=1500)
+        if rc != 0:
+            ctx.violation("driver-failed", "", out[-1500:], no_input=True)
+        st = ctx.read_stats(outdir)
+        ctx.l1(outdir, label="L1-cpu")
+        ctx.classify(ctx.l2(outdir))
+        if not ctx.replay:
+            coverage_gate(ctx, "cpu", st)
+    if (not ctx.replay or load_only) and not graph_only and not cpu_only:
         env4 = dict(env)
         env4["VERIF_N"] = ctx.scale(1200, 20000)
         rc, out, outdir = ctx.go_test("./server/", OVERLAY_SCHED, "^TestVerifC16Load$", env=env4, timeout=1500)
